@@ -133,6 +133,25 @@ type Markers struct {
 	PE    *Empty              `json:"pe"`
 	Elems []Empty             `json:"elems"`
 }
+// two levels of embedding, the middle struct having fields of its own before and after the embedded one
+type IDt struct {
+	ID string `json:"id"`
+}
+type BaseT struct {
+	Pre string `json:"pre"`
+	IDt
+	Name string `json:"name"`
+	Age  int    `json:"age,omitempty"`
+}
+type DocT struct {
+	BaseT
+	Title string `json:"title"`
+}
+type DocP struct {
+	Head int `json:"head"`
+	*BaseT
+	Tail []string `json:"tail"`
+}
 type DescTag struct {
 	A int `json:"a" jsonschema:"the a"`
 }
@@ -151,6 +170,7 @@ var bank = map[string]reflect.Type{
 	"MyInt8": reflect.TypeFor[MyInt8](), "MyUint16": reflect.TypeFor[MyUint16](), "MyUint": reflect.TypeFor[MyUint](),
 	"MyInt64": reflect.TypeFor[MyInt64](), "MyBool": reflect.TypeFor[MyBool](), "Empty": reflect.TypeFor[Empty](),
 	"Levels": reflect.TypeFor[Levels](), "Markers": reflect.TypeFor[Markers](),
+	"IDt": reflect.TypeFor[IDt](), "BaseT": reflect.TypeFor[BaseT](), "DocT": reflect.TypeFor[DocT](), "DocP": reflect.TypeFor[DocP](),
 	"Handler": reflect.TypeFor[Handler](), "IntKeyed": reflect.TypeFor[IntKeyed](), "MyChan": reflect.TypeFor[MyChan](),
 	"TwoHandlers": reflect.TypeFor[TwoHandlers](),
 }
